@@ -295,6 +295,17 @@ def engine_rooted(n):
         return engine_rooted(n.value)
     if isinstance(n, ast.IfExp):      # (Markup if context.eval_ctx.autoescape else identity)(...)
         return engine_rooted(n.body) and engine_rooted(n.orelse)
+    if isinstance(n, ast.Lambda):
+        # an immediately applied lambda written by the compiler, e.g. (lambda rv: escape(rv) if ... else rv)(<value>)
+        # (a9b4b34): engine code as long as its body does not look into, subscript or call its own parameters
+        # (the walk of scan_generated still visits the body and the arguments)
+        params = {a.arg for a in n.args.posonlyargs + n.args.args + n.args.kwonlyargs}
+        for sub in ast.walk(n.body):
+            if isinstance(sub, (ast.Attribute, ast.Subscript)) and isinstance(sub.value, ast.Name) and sub.value.id in params:
+                return False
+            if isinstance(sub, ast.Call) and isinstance(sub.func, ast.Name) and sub.func.id in params:
+                return False
+        return True
     return False
 
 
